@@ -58,7 +58,8 @@ func (w *wsClient) localPort() string {
 
 // request kinds (the handshake as the client writes it)
 //
-//	ws       a complete RFC 6455 handshake, Origin of another site
+//	ws       a complete RFC 6455 handshake
+//	wsorigin the same with the Origin of another site (recorded, not judged)
 //	wsmixed  the same with `Connection: keep-alive, Upgrade` and `Upgrade: WebSocket`
 //	plain    an ordinary GET
 //	post     a complete handshake, but POST
@@ -73,6 +74,8 @@ func handshakeText(kind, target, host string, extra []string) (string, string) {
 	var h []string
 	switch kind {
 	case "ws":
+		h = []string{"Upgrade: websocket", "Connection: Upgrade", "Sec-WebSocket-Key: " + key, "Sec-WebSocket-Version: 13"}
+	case "wsorigin":
 		h = []string{"Upgrade: websocket", "Connection: Upgrade", "Sec-WebSocket-Key: " + key, "Sec-WebSocket-Version: 13", "Origin: http://other.example"}
 	case "wsmixed":
 		h = []string{"Upgrade: WebSocket", "Connection: keep-alive, Upgrade", "Sec-WebSocket-Key: " + key, "Sec-WebSocket-Version: 13"}
